@@ -53,6 +53,10 @@ def fc_arg(tbl, shuffle=True):
         rr.shuffle(items)
         for _, ent in items:
             rr.shuffle(ent)
+    if shuffle and (seed // 4) % 3 == 0:
+        # reverse flags as numpy booleans (tables computed from the face orientations rather than typed in)
+        items = [(f, [(a, tuple(None if l is None else (l[0], l[1], np.bool_(l[2])) for l in pr)) for a, pr in ent])
+                 for f, ent in items]
     if shuffle and (seed // 2) % 2 == 0:
         # an axis without links on a face may simply be left out of that face's entry
         items = [(f, [(a, pr) for a, pr in ent if any(l is not None for l in pr)]) for f, ent in items]
